@@ -2082,3 +2082,126 @@ def h_enumerate(I, st, callee, target, args, ctx):
     if isinstance(it, VIter):
         return [(st, VIterEnum(it.slice, it.pos))]
     raise Unanalysable("enumerate over %r" % (it,))
+
+
+# ---- more core/alloc items that ordinary refactorings use --------------------------------------
+
+@ext("alloc:Vec<T, A>::clear", "heapless:Vec<T, N>::clear", "alloc:Vec<T, A>::truncate")
+def h_vec_clear(I, st, callee, target, args, ctx):
+    r = args[0]
+    v = I.read_ref(st, r)
+    if target["def"].endswith("truncate"):
+        n = const_of(st, args[1], "truncate")
+        if n != 0:
+            raise Unanalysable("Vec::truncate(n != 0)")
+    if isinstance(v, VSeq):
+        I.write_loc(st, r.cell, r.path, VSeq(("empty",), v.cap))
+        return [(st, UNIT)]
+    if isinstance(v, VList):
+        I.write_loc(st, r.cell, r.path, VList((), v.cap))
+        return [(st, UNIT)]
+    raise Unanalysable("clear on %r" % (v,))
+
+
+@ext("alloc:Vec<T>::new", "alloc:Vec<T>::with_capacity", "alloc:Vec<T, A>::new", "alloc:Vec<T, A>::with_capacity")
+def h_vec_new(I, st, callee, target, args, ctx):
+    dest = ctx["term"]["dest"]
+    ty = ctx["body"]["locals"][dest["l"]]
+    return [(st, default_of(I, ty))]
+
+
+@ext("alloc:[T]::to_vec", "alloc::slice::{impl#0}::to_vec")
+def h_to_vec(I, st, callee, target, args, ctx):
+    v = deref(I, st, args[0])
+    if isinstance(v, VSlice):
+        return [(st, VSeq(("slice", v.buf, v.start, v.len), None))]
+    if isinstance(v, VSeq):
+        return [(st, v)]
+    raise Unanalysable("to_vec of %r" % (v,))
+
+
+@ext("core:[T]::first", "core:[T]::get")
+def h_slice_first(I, st, callee, target, args, ctx):
+    v = deref(I, st, args[0])
+    if not isinstance(v, VSlice):
+        raise Unanalysable("first/get on %r" % (v,))
+    idx = 0
+    if target["def"].endswith("::get"):
+        idx = const_of(st, args[1], "get index")
+        if idx is None:
+            raise Unanalysable("slice::get with a non-constant index")
+    present = decide_le0(st, -v.len + idx + 1, "slice first/get")     # len > idx
+    if present:
+        c = I.new_cell(st, VInt(8, False, lin=Lin.atom(("byte", v.buf, (v.start + idx).key()))))
+        return [(st, mk_some(VRef(c, ())))]
+    return [(st, NONE)]
+
+
+@ext("core:Option<T>::copied", "core:Option<T>::cloned")
+def h_opt_copied(I, st, callee, target, args, ctx):
+    v = args[0]
+    if isinstance(v, VAdt) and v.adt == OPTION:
+        return [(st, mk_some(deref(I, st, v.fields[0])) if v.variant == 1 else NONE)]
+    raise Unanalysable("Option::copied on %r" % (v,))
+
+
+@ext("core:Option<T>::unwrap_or", "core:Option<T>::unwrap_or_default")
+def h_opt_unwrap_or(I, st, callee, target, args, ctx):
+    v = args[0]
+    if isinstance(v, VAdt) and v.adt == OPTION:
+        if v.variant == 1:
+            return [(st, v.fields[0])]
+        if len(args) > 1:
+            return [(st, args[1])]
+        dest = ctx["term"]["dest"]
+        return [(st, default_of(I, ctx["body"]["locals"][dest["l"]]))]
+    raise Unanalysable("Option::unwrap_or on %r" % (v,))
+
+
+@ext("core:Option<T>::ok_or", "core:Option<T>::ok_or_else")
+def h_opt_ok_or(I, st, callee, target, args, ctx):
+    v = args[0]
+    if isinstance(v, VAdt) and v.adt == OPTION:
+        if v.variant == 1:
+            return [(st, mk_ok(v.fields[0]))]
+        if target["def"].endswith("ok_or_else"):
+            return [(s2, mk_err(e)) for s2, e in I.apply_callable(st, args[1], [], ctx)]
+        return [(st, mk_err(args[1]))]
+    raise Unanalysable("Option::ok_or on %r" % (v,))
+
+
+@ext("core:Option<T>::and_then")
+def h_opt_and_then(I, st, callee, target, args, ctx):
+    v, f = args
+    if isinstance(v, VAdt) and v.adt == OPTION:
+        if v.variant == 0:
+            return [(st, NONE)]
+        return I.apply_callable(st, f, [v.fields[0]], ctx)
+    raise Unanalysable("Option::and_then on %r" % (v,))
+
+
+@ext("core:Result<T, E>::is_ok", "core:Result<T, E>::is_err")
+def h_res_is_ok(I, st, callee, target, args, ctx):
+    v = deref(I, st, args[0])
+    if isinstance(v, VAdt) and v.adt == RESULT:
+        okk = v.variant == 0
+        return [(st, VBool(okk if target["def"].endswith("is_ok") else not okk))]
+    raise Unanalysable("Result::is_ok on %r" % (v,))
+
+
+@ext("core:Result<T, E>::and_then")
+def h_res_and_then(I, st, callee, target, args, ctx):
+    v, f = args
+    if isinstance(v, VAdt) and v.adt == RESULT:
+        if v.variant == 1:
+            return [(st, v)]
+        return I.apply_callable(st, f, [v.fields[0]], ctx)
+    raise Unanalysable("Result::and_then on %r" % (v,))
+
+
+@ext("core:char::from", "core::char::convert::{impl#1}::from")
+def h_char_from(I, st, callee, target, args, ctx):
+    v = args[0]
+    if isinstance(v, VInt):
+        return [(st, VInt(32, False, lin=lin_of(st, v)))]
+    raise Unanalysable("char::from %r" % (v,))
